@@ -379,20 +379,25 @@ structure MCtx where
   hG : Pg.graphOf r = some G
   ign : List Nat := []
   inv : World → Prop := noInv
+  /-- the slots `inv` looks at (frame-pointer convention: the ignored ones; by-reference discipline:
+      the by-reference parameter slots) -/
+  prot : List Nat := ign
+  /-- ghost: the routines with an activation on the call stack (this one included) -/
+  act : List Nat := []
   base : List Val := []
   dev : Fail → Prop := devOvf
   devOvf : dev ovfF := by rfl
 
 def MCtx.st (X : MCtx) (p : GPt) (m : MS) : GSt := ⟨X.r, p, X.cs, m⟩
 
-/-- the invariant on the source world only looks at the ignored slots -/
+/-- the invariant on the source world only looks at the slots `prot` -/
 def MCtx.InvOK (X : MCtx) : Prop :=
-  ∀ w w' : World, (∀ s, s ∈ X.ign → getSlot w'.scratch s = getSlot w.scratch s) → X.inv w → X.inv w'
+  ∀ w w' : World, (∀ s, s ∈ X.prot → getSlot w'.scratch s = getSlot w.scratch s) → X.inv w → X.inv w'
 
 theorem MCtx.InvOK.same {X : MCtx} (h : X.InvOK) {w w' : World} (hs : w'.scratch = w.scratch) (hi : X.inv w) :
     X.inv w' := h w w' (fun s _ => by rw [hs]) hi
 
-theorem MCtx.InvOK.set {X : MCtx} (h : X.InvOK) {w : World} {v : Nat} {x : Val} (hv : v ∉ X.ign) (hi : X.inv w) :
+theorem MCtx.InvOK.set {X : MCtx} (h : X.InvOK) {w : World} {v : Nat} {x : Val} (hv : v ∉ X.prot) (hi : X.inv w) :
     X.inv { w with scratch := setSlot w.scratch v x } := by
   refine h w _ (fun s hs => ?_) hi
   simp only [getSlot_setSlot]
